@@ -2740,14 +2740,15 @@ class VM:
             del self.stack[stack_depth:]
             self.stack.append(exc)
         else:
-            # Uncaught exception
-            if isinstance(exc, str):
-                raise JSError(exc)
-            elif isinstance(exc, JSObject):
+            # Uncaught exception: the host sees a JSError describing the value
+            if isinstance(exc, JSObject):
+                name = exc.get("name")
                 msg = exc.get("message")
-                raise JSError(to_string(msg) if msg else "Error")
-            else:
-                raise JSError(to_string(exc))
+                raise JSError(
+                    "" if msg is UNDEFINED else to_string(msg),
+                    name if isinstance(name, str) and name else "Error",
+                )
+            raise JSError(to_string(exc))
 
     def _handle_python_exception(self, error_type: str, message: str) -> None:
         """Convert a Python exception to a JavaScript exception and throw it."""
